@@ -476,7 +476,10 @@ package json
 //@   trusted sync.Pool: the scanner is dead after Put
 //@   modifies nothing
 
+// Valid writes only the scratch state of the pooled scanner it takes (and that scanner's own stack array): in
+// particular not a byte of its input (C09).
 //@ func Valid
+//@   modifies region(scanner.step), region(scanner.err), region(scanner.endTop), region(scanner.bytes), region(scanner.parseState), region(elem int)
 //@   ensures[C16] iff: result <==> wf(data)
 
 //@ func (*SyntaxError).Error
